@@ -81,9 +81,13 @@ class EmbeddedSignalling(BitsInterface):
         assert (
             len(bits) == 16
         ), "EMB (Embedded Signalling) should be exactly 16 bits long"
-        return EmbeddedSignalling(
+        emb: EmbeddedSignalling = EmbeddedSignalling(
             colour_code=ba2int(bits[0:4]),
             preemption_and_power_control_indicator=bits[4],
             link_control_start_stop=ba2int(bits[5:7]),
             emb_parity=ba2int(bits[7:16]),
         )
+        # the verdict is about the word that was received: the constructor generates the parity of an all-zero field
+        # before it checks, so the bits it would serialise are not always the received ones
+        emb.emb_parity_ok = QuadraticResidue1676.check(bits)
+        return emb
